@@ -120,3 +120,96 @@ def split_hex_blocks(text):
     if cur is not None:
         return None
     return blocks
+
+
+# ---------------------------------------------------------------------------
+# stores (directories of PELs)
+# ---------------------------------------------------------------------------
+REFCODE_POOL = ["BD8D1234", "BD8D1235", "BD8D5678", "BD201234", "BDE51234", "BC8A0001", "BC201234", "110015F0",
+                "110015F1", "B7001111", "BD8D12AB", "B181F02A", "BD751234"]
+
+
+def gen_store(rng, n, *, style=None, ext=None, id_magnitude=None, refpool=None, with_src=None, max_sections=5,
+              classes=None, ud_targets=None, dup_plid=0.3):
+    """n well-formed PELs with distinct entry ids; file names are unambiguous:
+    no name contains the 8-digit entry id of another file."""
+    style = style or rng.choice(["bmc", "bmc", "plain", "mixed", "numeric"])
+    recipes, eids = [], set()
+    for i in range(n):
+        for _ in range(50):
+            eid = pelgen.gen_id(rng, id_magnitude)
+            if eid not in eids:
+                break
+        eids.add(eid)
+        plid = None
+        if recipes and rng.random() < dup_plid:
+            plid = rng.choice(recipes)["plid"]          # several PELs sharing one PLID
+        r = pelgen.gen_pel(rng, eid=eid, plid=plid, want_class=rng.choice(classes) if classes else None,
+                           refcode_pool=refpool, with_src=with_src, max_sections=max_sections,
+                           id_magnitude=id_magnitude, ud_targets=ud_targets)
+        recipes.append(r)
+    for _ in range(20):
+        names = make_names(rng, recipes, style, ext)
+        ok = True
+        for i, nm in enumerate(names):
+            for j, r in enumerate(recipes):
+                if i != j and ("%08X" % r["eid"]) in nm:
+                    ok = False
+        if ok:
+            break
+        for r in recipes:
+            r["commit"] = pelgen._bcd_time(rng)
+    else:
+        style = "plain"
+        names = make_names(rng, recipes, "plain", ext)
+    return [{"name": nm, "recipe": r} for nm, r in zip(names, recipes)]
+
+
+def gen_registry(rng, recipes):
+    """a small fake message registry + component-id table that matches some of
+    the generated reference codes"""
+    pels = []
+    seen = set()
+    for r in recipes:
+        for s in r["sections"]:
+            if s["kind"] == "src" and rng.random() < 0.6:
+                code = s["ascii"][4:8]
+                typ = s["ascii"][0:2]
+                if (code, typ) in seen:
+                    continue
+                seen.add((code, typ))
+                e = {"Name": "xyz.openbmc_project.Fake." + code,
+                     "SRC": {"ReasonCode": "0x" + code},
+                     "Documentation": {"Description": "fake", "Message": "Fake message for " + code}}
+                if typ != "BD" or rng.random() < 0.3:
+                    e["SRC"]["Type"] = typ
+                if rng.random() < 0.5:
+                    e["Documentation"]["Message"] = "Value %1 and %2 for " + code
+                    e["Documentation"]["MessageArgSources"] = ["SRCWord6", "SRCWord9"]
+                if rng.random() < 0.4:
+                    e["SRC"]["Words6To9"] = {"6": {"Description": "word six", "AdditionalDataPropSource": "PROP6"},
+                                             "8": {"AdditionalDataPropSource": "NODESC"}}
+                pels.append(e)
+    comp = {"O": {"2000": "phosphor-logging", "1000": "bmc common", "E500": "openpower-hw-diags"},
+            "B": {"2000": "hb common"}}
+    return {"pels": pels, "component_ids": comp}
+
+
+def put_store(w, d, files):
+    w.mkdir(d)
+    for f in files:
+        w.put(d + "/" + f["name"], f["data"] if "data" in f else file_data(f))
+
+
+def file_data(f):
+    if "raw_hex" in f:
+        return bytes.fromhex(f["raw_hex"])
+    data = pelgen.build(f["recipe"])
+    if f.get("junk"):
+        data = apply_junk(data, f["junk"])
+    return data
+
+
+def ext_matches(name, ext):
+    import os
+    return (not ext) or os.path.splitext(name)[1] == ext
